@@ -8,6 +8,7 @@ static TABLE: Mutex<String> = Mutex::new(String::new());
 static NOTES: Mutex<Vec<String>> = Mutex::new(Vec::new());
 
 /// A remark for the evidence (printed with the statistics of the table).
+#[allow(dead_code)]
 pub fn note(s: &str) {
     NOTES.lock().unwrap().push(s.replace('"', "'").replace('\\', "/"));
 }
